@@ -216,6 +216,56 @@ def _loops(driver):
 VALIDATORS["loops"] = _loops
 
 
+def _mixture(driver):
+    """the two linked setters of `Mixture` against the pinned `setSysX` / `setRelX`: every state over {None, 0, 25, 40.5, 100, 250}^3 for
+    (absolute, relative, system) x every argument in {-1, 0, 1e-9, 12.5, 100, 100.0000001, 2500} x both setters; the three fields afterwards
+    (or the kind of error) are compared"""
+    import gbigsmiles
+    from lib import frac, close
+    vals = [None, 0.0, 25.0, 40.5, 100.0, 250.0]
+    args = [-1.0, 0.0, 1e-9, 12.5, 100.0, 100.0000001, 2500.0]
+    ERR = {"negative total system mass": "negMass", "Invalid extra fraction": "badFraction"}
+    ops, want = [], []
+    for a in vals:
+        for r in vals:
+            for sy in vals:
+                for which in ("sys", "rel"):
+                    for v in args:
+                        mix = gbigsmiles.Mixture(".")
+                        mix._absolute_mass, mix._relative_mass, mix._system_mass = a, r, sy
+                        try:
+                            if which == "sys":
+                                mix.system_mass = v
+                            else:
+                                mix.relative_mass = v
+                            res = ("ok", (mix._absolute_mass, mix._relative_mass, mix._system_mass))
+                        except ZeroDivisionError:
+                            res = ("err", "zeroDiv")
+                        except RuntimeError as exc:
+                            res = ("err", next((k2 for k1, k2 in ERR.items() if k1 in str(exc)), "other:" + str(exc)[:40]))
+                        enc = lambda x: None if x is None else frac(x)
+                        ops.append({"op": "MIXSETX", "which": which, "v": frac(v), "m": {"abs": enc(a), "rel": enc(r), "sys": enc(sy)}})
+                        want.append(((a, r, sy), which, v, res))
+    got = driver.run(ops)
+    bad = []
+    for (state, which, v, res), g in zip(want, got):
+        if res[0] == "err":
+            ok = g.get("ok") is False and g.get("err") == res[1]
+        else:
+            ok = g.get("ok") is True
+            if ok:
+                for key, x in zip(("abs", "rel", "sys"), res[1]):
+                    y = g["m"].get(key)
+                    if (x is None) != (y is None) or (x is not None and not close(x, Fraction(y))):
+                        ok = False
+        if not ok:
+            bad.append({"state": state, "setter": which, "arg": v, "impl": res, "model": g})
+    return not bad, f"both Mixture setters on {len(ops)} (state, argument) pairs", bad[:5]
+
+
+VALIDATORS["mixture"] = _mixture
+
+
 def validate(part, driver):
     """(ok, what was compared, sample of differences)"""
     f = VALIDATORS.get(part)
